@@ -18,9 +18,42 @@ from common import nets
 ID = 'C14'
 N = {'quick': 1400, 'thorough': 60000}
 LEAN_MODULES = ['GnpyProofs.Props.C14']
-THEOREMS = []
-RULE = ''
-MODEL_SCOPE = ''
+THEOREMS = [f'Gnpy.Slots.{t}' for t in (
+    'step_blocked_unchanged', 'step_accept_free', 'step_slots_disjoint', 'step_marks_exactly', 'served_cellAt',
+    'same_on_all_oms', 'enough_slots', 'step_preserves_wf', 'run_spec', 'history_no_overlap', 'occupancy_is_union',
+    'run_preserves_wf', 'first_fit_lowest', 'user_fixed_honoured_partial', 'reserved_check', 'create_wf',
+    'stateWF_of_create', 'assignSpectrum_ok', 'assignSpectrum_of', 'spectrumSelection_sound', 'spectrumSelection_first',
+    'determineSlotNumbers_pos', 'determineSlotNumbers_fixed', 'nmLoop_spec', 'aggregate_spec', 'restoreOrder_perm',
+    'applyPath_spec')]
+PARTIAL = ['user_fixed_honoured_partial: proved = every returned (N, M) stems from an entry of the request and carries its '
+           'fixed N / M unchanged, and no more pairs than entries are returned; not proved = the positional statement '
+           '"the returned pairs are, in request order, the served entries" (link through restore_order); that part is '
+           'covered by correspondence (exact rq.N/rq.M after every call) and by the monitor (order-preserving embedding)']
+RULE = ('one PRNG; (a) histories (74 %): 1-8 OMS over one frequency range (20-128 slots quick, up to 768 thorough; ranges '
+        'containing the 193.1 THz anchor, off-grid band edges, guard bands 0-50 GHz), per-OMS unusable zones (left/right/'
+        'gap) and pre-occupation, 1-12 (thorough: up to 60) requests with routes over 1-5 OMS, with or without a reverse '
+        'route, every mix of fixed/free N and M, multi-slot, over/under-provisioned M, N on band edges and outside the '
+        'map, first_fit/last_fit; ~12 % malformed (bitmap length, unaligned maps, zero bit rate, empty route, unknown '
+        'OMS id, unknown policy, no slot entry); compared after EVERY call; (b) unit calls of spectrum_selection, '
+        'determine_slot_numbers, assign_spectrum, order_slots/restore_order, bitmap_sum, '
+        'compute_spectrum_slot_vs_bandwidth (23 %); (c) a designed ring/line network through build_oms_list, real '
+        'routes, find_reversed_path and one batch call (3 %). A history is non-trivial when at least one request is '
+        'accepted and (two accepted requests share an OMS or a request is blocked); unit and flow cases with >= 2 accepted '
+        'requests are non-trivial; distinct = distinct canonical JSON of the case')
+MODEL_SCOPE = ('modelled (GnpyModel/Slots.lean, Py.lean): Bitmap.__init__/geti/insert_left/insert_right, OMS.update_spectrum/'
+               'assign_spectrum/add_service, frequency_to_n, nvalue_to_frequency, mvalue_to_slots, bitmap_sum, '
+               'aggregate_oms_bitmap, spectrum_selection (both forms), select_candidate, determine_slot_numbers (fuel = '
+               'map length + 2), order_slots, restore_order, compute_n_m, compute_spectrum_slot_vs_bandwidth, '
+               'pth_assign_spectrum (one request per step, histories by `run`), with Python slice/index/list.index/'
+               'sorted semantics and the exception kinds. Frequencies, bandwidths, bit rates are integer Hz / bit/s '
+               '(exact in binary64). Domain of the generators: N any integer or null, M >= 1 or null (M is "an integer '
+               'greater than or equal to 1", RFC 7698; M <= 0 is outside the quantifier: the implementation does not '
+               'terminate for a fixed N with M = 0 - reported, not checked). Taken from the implementation as input: '
+               'build_path_oms_id_list (a list(set(...)); its element set is checked by the monitor). Python aliasing '
+               'is not in the functional model: the test bitmap is a value (F1). Monitor scope: guard-band and first-fit '
+               'statements are judged when all maps share one range and the guard band is a positive multiple of 6.25 GHz '
+               '(what build_oms_list produces); first-fit additionally needs band edges on the grid (otherwise the guard '
+               'band counted from the band edge and from the first slot index differ, theorem create_wf).')
 
 GRID = 6250000000
 ANCHOR = 193100000000000
@@ -174,7 +207,7 @@ def gen_request(rng, idx, n_oms, n_min, n_max, gb, widen, odd=None):
 
     def pick_n(m=None):
         r = rng.random()
-        if r < 0.006:
+        if r < 0.03:
             return rng.choice([n_min - rng.randint(1, 12), n_max + rng.randint(1, 12)])   # outside the slot grid
         if r < 0.15:
             mm = m or pcm
@@ -214,12 +247,6 @@ def gen_request(rng, idx, n_oms, n_min, n_max, gb, widen, odd=None):
           'spacing': spacing, 'pth': pth, 'rpth': rpth, 'pre_blocked': rng.random() < 0.03}
     if odd == 'zero_rate':
         rq['bit_rate'] = 0
-    elif odd == 'odd_m':
-        # M = 0 / negative (never together with a fixed N and M = 0: the implementation loops forever there)
-        e = rng.choice(rq['slots'])
-        e['M'] = rng.choice([0, 0, -1, -4])
-        if e['M'] == 0:
-            e['N'] = None
     elif odd == 'empty_path':
         rq['pth'], rq['rpth'] = ['T', 'R', 'T'], []
     elif odd == 'bad_path':
@@ -239,8 +266,7 @@ def gen_history(rng, tier, widen):
             'cells': None if rng.random() < 0.15 else gen_cells(rng, length, dense)} for _ in range(n_oms)]
     odd = None
     if rng.random() < 0.12:
-        odd = rng.choice(['bad_len', 'unaligned', 'zero_rate', 'odd_m', 'odd_m', 'empty_path', 'bad_path', 'policy',
-                          'no_slots'])
+        odd = rng.choice(['bad_len', 'unaligned', 'zero_rate', 'empty_path', 'bad_path', 'policy', 'no_slots'])
     if odd == 'bad_len':
         o = rng.choice(oms)
         o['cells'] = gen_cells(rng, length + rng.choice([-1, 1, 2]))
@@ -256,8 +282,7 @@ def gen_history(rng, tier, widen):
     odd_at = rng.randrange(hist)
     for i in range(hist):
         reqs.append(gen_request(rng, i, n_oms, n_min, n_max, gb, widen,
-                                odd if (i == odd_at and odd in ('zero_rate', 'odd_m', 'empty_path', 'bad_path',
-                                                                'no_slots')) else None))
+                                odd if (i == odd_at and odd in ('zero_rate', 'empty_path', 'bad_path', 'no_slots')) else None))
     pol = 'first_fit' if rng.random() < 0.75 else 'last_fit'
     if odd == 'policy':
         pol = '2partition'
@@ -273,12 +298,12 @@ def gen_unit(rng, tier, widen):
     op = rng.choice(['select', 'select', 'select_at', 'dsn', 'dsn', 'assign', 'assign', 'order', 'bsum', 'slots'])
     c = {'kind': 'unit', 'op': op, 'bitmap': bm}
     if op in ('select', 'select_at'):
-        c['m'] = rng.choice([1, 2, 4, 4, 8, 8, 16, rng.randint(1, 20)]) if rng.random() < 0.93 else rng.choice([0, -1, -3, -40])
+        c['m'] = rng.choice([1, 2, 4, 4, 8, 8, 16, rng.randint(1, 20)])
         c['n'] = None if op == 'select' else rng.randint(n_min - 2, n_max + 2)
         c['policy'] = rng.choice(['first_fit', 'first_fit', 'last_fit', 'last_fit', 'middle'])
     elif op == 'dsn':
         c['n'] = rng.randint(n_min - 1, n_max + 1)
-        c['pcm'] = rng.choice([1, 2, 3, 4, 4, 4, 6, 8]) if rng.random() < 0.95 else rng.choice([-1, -4])
+        c['pcm'] = rng.choice([1, 2, 3, 4, 4, 4, 6, 8])
         c['required_m'] = rng.choice([c['pcm'], 2 * c['pcm'], 3 * c['pcm'], 8 * c['pcm'], rng.randint(-2, 40), 0])
     elif op == 'assign':
         c['m'] = rng.choice([1, 2, 4, 4, 8, rng.randint(1, 10), rng.randint(1, 20), 0, -2])
@@ -547,19 +572,6 @@ def monitor_step(res, led, before, after, r, out, policy, plaus, stats, grid_ok=
                      cls='unlisted' if policy == 'first_fit' else 'unlisted')
 
 
-def classify_crash(r, kind, before, plaus):
-    """an exception escaping pth_assign_spectrum for a plausible request: which finding class"""
-    b = before[0]['bm']
-    pcm = cdiv(r['spacing'], SLOT)
-    required = pcm * cdiv(r['path_bandwidth'], r['bit_rate'])
-    given = sum(s['M'] for s in r['slots'] if s['M'] is not None)
-    if kind == 'ValueError' and any(s['N'] is not None and not (b['n_min'] <= s['N'] <= b['n_max']) for s in r['slots']):
-        return 'c14-crash-n-outside-grid'
-    if kind in ('SpectrumError', 'IndexError') and given > required and any(s['N'] is None and s['M'] is None for s in r['slots']):
-        return 'c14-crash-overprovisioned'
-    return 'unlisted'
-
-
 # ---------------------------------------------------------------------------------------------------------------------
 # run
 # ---------------------------------------------------------------------------------------------------------------------
@@ -623,11 +635,8 @@ def run_history(case, drv):
         if err is not None:
             res.cmp_exact('pth_assign_spectrum.error', err, step.get('error'), request=i)
             stats[f'exception_{err}'] += 1
-            if err == 'hang' and any(s['M'] == 0 and s['N'] is not None for s in r['slots']):
-                res.fail(f'non-termination: request {r["id"]} {r["slots"]} (accepted by the request loader) never returns '
-                         f'from pth_assign_spectrum', cls='c14-hang-m-zero')
-            elif plaus:
-                cls = classify_crash(r, err, before, plaus)
+            if plaus:
+                cls = 'unlisted'
                 res.fail(f'crash instead of accept/block: request {r["id"]} {r["slots"]} raises {err} out of '
                          f'pth_assign_spectrum', cls=cls)
                 if before != after:
